@@ -91,6 +91,7 @@ type c05Obs struct {
 	// per name, per issuer key (first, second): the bundle stored under that key; Store[n] is the most recently
 	// issued of them (highest serial)
 	Bundles [][]*c05Cert `json:"bundles"`
+	Panics  []string     `json:"panics,omitempty"` // panics of the code under test during the event (reported as err)
 
 	failovers int // certificates issued by the second issuer so far
 }
@@ -165,6 +166,23 @@ type c05World struct {
 	last     *c05Obs        // the latest observation
 	hashOf   map[int]string // cache key by certificate identity, as of the latest observation
 	ocspOrd  []int          // names in the order the running OCSP pass asked for their locks
+	ocspPanicked bool
+	panics   []string // panics of the code under test during the latest event (observations, not harness failures)
+}
+
+// protect runs a call into the code under test; a panic there is an observation of the event — the
+// call "returned an error" and did nothing further — never a failure of the harness.
+func (w *c05World) protect(what string, f func() error) (err error) {
+	defer func() {
+		if r := recover(); r != nil {
+			msg := fmt.Sprintf("%s panicked: %v", what, r)
+			w.mu.Lock()
+			w.panics = append(w.panics, msg)
+			w.mu.Unlock()
+			err = errors.New(msg)
+		}
+	}()
+	return f()
 }
 
 var c05DueChecked, c05DueMismatch int
@@ -675,7 +693,7 @@ func (w *c05World) do(e c05Event) error {
 			w.passOf[gid] = p
 			w.mu.Unlock()
 			close(started)
-			err := w.cache.RenewManagedCertificates(w.ctx)
+			err := w.protect("RenewManagedCertificates", func() error { return w.cache.RenewManagedCertificates(w.ctx) })
 			w.mu.Lock()
 			delete(w.actors, gid)
 			delete(w.passOf, gid)
@@ -746,11 +764,12 @@ func (w *c05World) do(e c05Event) error {
 		fin := make(chan struct{})
 		go func() {
 			w.asActor(func() {
-				if e.Async {
-					err = cfg.ManageAsync(w.ctx, []string{w.names[e.N]})
-				} else {
-					err = cfg.ManageSync(w.ctx, []string{w.names[e.N]})
-				}
+				err = w.protect("Manage", func() error {
+					if e.Async {
+						return cfg.ManageAsync(w.ctx, []string{w.names[e.N]})
+					}
+					return cfg.ManageSync(w.ctx, []string{w.names[e.N]})
+				})
 			})
 			close(fin)
 		}()
@@ -773,7 +792,11 @@ func (w *c05World) do(e c05Event) error {
 			w.ocspG[gid] = true
 			w.ocspOrd = nil
 			w.mu.Unlock()
-			certmagic.VerifMaintainUpdateOCSPStaples(w.ctx, w.cache)
+			if err := w.protect("updateOCSPStaples", func() error { certmagic.VerifMaintainUpdateOCSPStaples(w.ctx, w.cache); return nil }); err != nil {
+				w.mu.Lock()
+				w.ocspPanicked = true
+				w.mu.Unlock()
+			}
 			w.mu.Lock()
 			delete(w.actors, gid)
 			delete(w.ocspG, gid)
@@ -785,6 +808,12 @@ func (w *c05World) do(e c05Event) error {
 		case <-time.After(c05Timeout):
 			return fmt.Errorf("the OCSP pass did not return")
 		}
+		w.mu.Lock()
+		if w.ocspPanicked {
+			w.lastErr = true
+			w.ocspPanicked = false
+		}
+		w.mu.Unlock()
 	default:
 		return fmt.Errorf("unknown event kind %q", e.Kind)
 	}
@@ -829,6 +858,12 @@ func (w *c05World) describe(leaf *x509.Certificate, managed bool) (c05Cert, erro
 
 func (w *c05World) observe() (*c05Obs, error) {
 	o := &c05Obs{Err: w.lastErr, Rev: []int{}}
+	w.mu.Lock()
+	o.Panics, w.panics = w.panics, nil
+	w.mu.Unlock()
+	if len(o.Panics) > 0 {
+		o.Err = true
+	}
 	certs, index := certmagic.VerifMaintainCacheSnapshot(w.cache)
 	idOf := map[string]int{}
 	for _, cc := range certs {
@@ -1251,6 +1286,9 @@ func c05Features(f map[string]bool, ev c05Event, b, a *c05Obs) {
 	}
 	if a.Err {
 		f["error_returned"] = true
+	}
+	if len(a.Panics) > 0 {
+		f["code_under_test_panicked"] = true
 	}
 	if ev.Kind == "revoke" && len(a.Rev) > len(b.Rev) {
 		f["certificate_revoked"] = true
